@@ -1,6 +1,7 @@
 package props
 
 import (
+	"fmt"
 	"strings"
 	"testing"
 
@@ -114,6 +115,34 @@ func TestC09(t *testing.T) {
 			d3 := jv.NumLit("1.5")
 			f.Root.Props = append(f.Root.Props, model.Prop{Name: "pointSize", Node: &model.Node{Kind: model.KEnum, EnumType: "number", EnumVals: []jv.V{jv.NumLit("0.5"), jv.NumLit("1.5"), jv.NumLit("2.5")}, Default: &d3}})
 			c.Count("shape.fraction_default_on_int_named_type")
+		}
+		// falsy scalar defaults (0, false, "") on properties whose Go field is interface{}:
+		// untyped, or a type list without null; a non-zero control next to them
+		if rapid.IntRange(0, 2).Draw(rt, "falsyuntyped") == 0 {
+			falsy := []jv.V{jv.IntV(0), jv.BoolV(false), jv.StrV(""), jv.NumLit("0.5"), jv.StrV("x")}
+			for i, dv := range falsy {
+				d := dv
+				n := &model.Node{Kind: model.KAny, Default: &d}
+				f.Root.Props = append(f.Root.Props, model.Prop{Name: fmt.Sprintf("zuntyped%d", i), Node: n})
+			}
+			c.Count("shape.falsy_default_on_untyped_property")
+		}
+		// a definition with a type-level default, referenced with a different sibling default:
+		// the property's own default wins
+		if rapid.IntRange(0, 2).Draw(rt, "refdefaultoverride") == 0 {
+			mkv := func(b int64, r string) *jv.V {
+				v := jv.ObjV(jv.Field("burst", jv.IntV(b)), jv.Field("rate", jv.NumLit(r)))
+				return &v
+			}
+			lim := &model.Node{Kind: model.KObject, Props: []model.Prop{
+				{Name: "burst", Node: &model.Node{Kind: model.KInteger}},
+				{Name: "rate", Node: &model.Node{Kind: model.KNumber}},
+			}, Required: []string{"burst", "rate"}, Default: mkv(10, "2.5")} // required members: value-typed fields (pointer members in an object default are an open finding)
+			f.Defs = append(f.Defs, model.Def{Name: "ZLimits", Node: lim})
+			f.Root.Props = append(f.Root.Props,
+				model.Prop{Name: "zlimitsown", Node: &model.Node{Kind: model.KRef, Ref: "#/$defs/ZLimits", Target: lim, Default: mkv(2, "0.5")}},
+				model.Prop{Name: "zlimitssame", Node: &model.Node{Kind: model.KRef, Ref: "#/$defs/ZLimits", Target: lim, Default: mkv(10, "2.5")}})
+			c.Count("shape.ref_default_overrides_definition_default")
 		}
 		if rapid.IntRange(0, 3).Draw(rt, "defaultcollision") == 0 {
 			// two structurally identical object schemas that compete for one Go type name and differ
